@@ -113,6 +113,10 @@ class Lem:
         return ob
 
 
+class TaskTimeout(BaseException):
+    """raised by SIGALRM inside a worker; BaseException so that no `except Exception` in the engine swallows it"""
+
+
 _CTX = None
 _TASKS = None
 _PROP = None
@@ -122,8 +126,30 @@ def _run_task(i):
     ctx, task, prop = _CTX, _TASKS[i], _PROP
     t0 = time.time()
     out = {"task": task.name, "results": [], "covers": [], "error": None, "functions": [], "stats": {}, "notes": []}
+    # wall-clock budget for generating one task's obligations: a changed function can make the symbolic execution
+    # blow up (e.g. a new 160-iteration loop without invariant that the engine unrolls through an inlined decoder);
+    # the task then ends with an error and its baseline obligations are reported as no longer discharged
+    import signal
+    budget = int(os.environ.get("VERIF_TASK_TIMEOUT", "0")) or (900 if ctx.tier == "quick" else 3600)
+
+    def _alarm(signum, frame):
+        raise TaskTimeout("obligation generation exceeded %d s" % budget)
     try:
-        r = task.build(ctx)
+        signal.signal(signal.SIGALRM, _alarm)
+        signal.alarm(budget)
+    except (ValueError, OSError):
+        pass
+    try:
+        try:
+            r = task.build(ctx)
+        finally:
+            try:
+                signal.alarm(0)
+            except (ValueError, OSError):
+                pass
+    except TaskTimeout as ex:
+        out["error"] = "Timeout: %s" % ex
+        return out
     except (Unsupported, SpecError) as ex:
         out["error"] = "%s: %s" % (type(ex).__name__, ex)
         out["trace"] = traceback.format_exc()
